@@ -849,7 +849,7 @@ pub fn run_c15(tier: Tier, budget: Duration, frag: &mut Frag) {
     let start = Instant::now();
     let jobs: Vec<(usize, Vec<u32>, usize)> = if q {
         // (script length, bounds, number of plans used)
-        vec![(3, vec![0, 1, 2, 3], 6), (4, vec![0, 1, 2], 3), (5, vec![0, 1], 1)]
+        vec![(3, vec![0, 1, 2, 3], 2), (3, vec![0, 1, 2], 6), (4, vec![0, 1], 4), (5, vec![0], 2)]
     } else {
         vec![(3, vec![0, 1, 2, 3], 6), (4, vec![0, 1, 2], 6), (5, vec![0, 1], 3), (5, vec![0, 1, 2], 1)]
     };
